@@ -184,7 +184,7 @@ PROPS = {
         assumptions=["H collision-free on the strings involved", "users do not write through links into the cache"],
     ),
     "C07": dict(
-        families=[dict(name="effects", args=["-specs", "2,8,9,10,13"]), dict(name="pipe", args=["-specs", "2,8,9,13"]), dict(name="corrupt", args=["-specs", "8"])],
+        families=[dict(name="effects", args=["-specs", "2,8,9,10,13,14"]), dict(name="pipe", args=["-specs", "2,8,9,13"]), dict(name="corrupt", args=["-specs", "8"])],
         level_text="Theorems C07_readonly, C07_no_stage_write, C07_no_cache_write, C07_failed_step_unchanged, "
                    "C07_run_only_commands_write, C07_run_without_effects, C07_inputs_untouched, C07_skip_outputs_untouched "
                    "over the whole-program model. proof, partial: absence of other system calls is an audit of runs. Tied "
